@@ -105,8 +105,8 @@ type Atom struct {
 	V   any    `json:"v"`
 }
 
-func (a Atom) isStr() bool  { return a.K == "str" }
-func (a Atom) str() string  { s, _ := a.V.(string); return s }
+func (a Atom) isStr() bool { return a.K == "str" }
+func (a Atom) str() string { s, _ := a.V.(string); return s }
 func (a Atom) int() int64 {
 	switch v := a.V.(type) {
 	case float64:
